@@ -124,7 +124,25 @@ var c08Holders = []c08HolderT{
 	}},
 	{"reflect.Value of slice", func(r interface{}) interface{} { return reflect.ValueOf([]interface{}{r}) }},
 	{"nested [][]", func(r interface{}) interface{} { return [][]interface{}{{r}, {2, r}} }},
+	// holders under a Safe override: a redactable keeps its own envelopes there
+	{"Safe([]interface{}{r,1})", func(r interface{}) interface{} { return redact.Safe([]interface{}{r, 1}) }},
+	{"Safe(struct)", func(r interface{}) interface{} { return redact.Safe(holdS{r, r}) }},
+	{"SafeValue struct", func(r interface{}) interface{} { return holdSafe{r, 7} }},
+	{"[]SafeValue struct", func(r interface{}) interface{} { return []holdSafe{{r, 1}, {r, 2}} }},
+	{"SafeFormatter printing r under Safe()", func(r interface{}) interface{} {
+		return redact.Safe(scriptedFn(func(p redact.SafePrinter) { p.SafeString("pre:"); p.Print(r); p.Printf("|%v|", r) }))
+	}},
+	{"SafeFormatter printing r", func(r interface{}) interface{} {
+		return scriptedFn(func(p redact.SafePrinter) { p.UnsafeString("u"); p.Print(r); p.Printf("|%s|", r) })
+	}},
 }
+
+type holdSafe struct {
+	R interface{}
+	N int
+}
+
+func (holdSafe) SafeValue() {}
 
 func c08Holder(d Directive, r redact.RedactableString, hi int, asBytes bool, seen func(string)) string {
 	if d.Verb == 'T' || d.Verb == 'p' {
@@ -158,6 +176,9 @@ func c08Holder(d Directive, r redact.RedactableString, hi int, asBytes bool, see
 		}
 	}
 	want := strings.ReplaceAll(string(ref), c08Placeholder, string(r))
+	if !strings.Contains(string(ref), c08Placeholder) && strings.HasPrefix(h.Name, "SafeFormatter printing") {
+		return "" // a function value under a verb that does not dispatch (%w): nothing is printed through the printer
+	}
 	if !strings.Contains(string(ref), c08Placeholder) {
 		return fmt.Sprintf("Sprintf(%s, %s[placeholder]) = %q does not reproduce the placeholder redactable", d, h.Name, ref)
 	}
